@@ -508,3 +508,84 @@ Proof.
   intros D. destruct (eval2_H sh e rho) as (W & R & C & _). split; [exact W|]. split; [exact R|].
   intros v. rewrite C. apply (L1 sh). exact D.
 Qed.
+
+(* ------------------------------------------------------------------ the domain is open along every coordinate *)
+Lemma locally_neq0 (f : R -> R) x : continuous f x -> f x <> 0 -> locally x (fun y => f y <> 0).
+Proof.
+  intros C N. destruct (Rtotal_order (f x) 0) as [L|[L|L]]; [|contradiction|].
+  - generalize (locally_neg f x C L). apply filter_imp. intros y Hy. lra.
+  - generalize (locally_pos f x C L). apply filter_imp. intros y Hy. lra.
+Qed.
+Lemma locally_between (f : R -> R) x a b : continuous f x -> a < f x < b -> locally x (fun y => a < f y < b).
+Proof.
+  intros C [A B].
+  assert (La : locally x (fun y => a < f y)).
+  { apply (C (fun z => a < z)). apply (open_gt a). exact A. }
+  assert (Lb : locally x (fun y => f y < b)).
+  { apply (C (fun z => z < b)). apply (open_lt b). exact B. }
+  generalize (filter_and _ _ La Lb). apply filter_imp. intros y [P Q]. split; assumption.
+Qed.
+Lemma locally_range (f : R -> R) x : continuous f x -> (exists x0, Rncdf x0 = f x) ->
+  locally x (fun y => exists x0, Rncdf x0 = f y).
+Proof.
+  intros C [x0 E].
+  assert (B : Rncdf (x0 - 1) < f x < Rncdf (x0 + 1)) by (rewrite <- E; split; apply Rncdf_incr; lra).
+  generalize (locally_between f x _ _ C B). apply filter_imp. intros y [P Q].
+  destruct (Ranalysis5.f_interv_is_interv Rncdf (x0 - 1) (x0 + 1) (f y) ltac:(lra) ltac:(lra)
+              (fun z _ => Rncdf_continuity z)) as (z & _ & Ez).
+  exists z. exact Ez.
+Qed.
+Lemma locally_pow_dom (f : R -> R) x p : continuous f x -> pow_dom (f x) p -> locally x (fun y => pow_dom (f y) p).
+Proof.
+  intros C [P|[P I]].
+  - generalize (locally_pos f x C P). apply filter_imp. intros y Hy. left. exact Hy.
+  - generalize (locally_neg f x C P). apply filter_imp. intros y Hy. right. split; assumption.
+Qed.
+
+Lemma evalR_continuous (sh : bool) (e : exprR) (rho : envR) v : Dom e rho ->
+  continuous (fun y => evalR e (upd rho v y)) (rho v).
+Proof. intros D. apply (derive_continuous _ _ _ (L1 sh e rho v D)). Qed.
+
+Lemma Dom_locally (sh : bool) (e : exprR) (rho : envR) v : Dom e rho -> locally (rho v) (fun y => Dom e (upd rho v y)).
+Proof.
+  assert (HsF : forall e : exprR, evalR e (upd rho v (rho v)) = evalR e rho) by (intros; apply evalR_ext, upd_same).
+  induction e; cbn [Dom]; intros HD; try (apply filter_forall; intros; exact I); auto.
+  - destruct HD as [H1 H2]. generalize (filter_and _ _ (IHe1 H1) (IHe2 H2)). apply filter_imp. tauto.
+  - destruct HD as [H1 H2]. generalize (filter_and _ _ (IHe1 H1) (IHe2 H2)). apply filter_imp. tauto.
+  - destruct HD as [H1 H2]. generalize (filter_and _ _ (IHe1 H1) (IHe2 H2)). apply filter_imp. tauto.
+  - destruct HD as (H1 & H2 & H3).
+    pose proof (locally_neq0 _ _ (evalR_continuous sh e2 rho v H2) ltac:(cbv beta; rewrite HsF; exact H3)) as L3.
+    generalize (filter_and _ _ (filter_and _ _ (IHe1 H1) (IHe2 H2)) L3). apply filter_imp. tauto.
+  - destruct HD as (H1 & H3). generalize (IHe H1). apply filter_imp. tauto.
+  - destruct HD as (H1 & H3).
+    pose proof (locally_neq0 _ _ (evalR_continuous sh e rho v H1) ltac:(cbv beta; rewrite HsF; exact H3)) as L3.
+    generalize (filter_and _ _ (IHe H1) L3). apply filter_imp. tauto.
+  - destruct HD as (H1 & H3).
+    pose proof (locally_pow_dom _ _ p (evalR_continuous sh e rho v H1) ltac:(cbv beta; rewrite HsF; exact H3)) as L3.
+    generalize (filter_and _ _ (IHe H1) L3). apply filter_imp. tauto.
+  - destruct HD as (H1 & H3).
+    pose proof (locally_pow_dom _ _ p (evalR_continuous sh e rho v H1) ltac:(cbv beta; rewrite HsF; exact H3)) as L3.
+    generalize (filter_and _ _ (IHe H1) L3). apply filter_imp. tauto.
+  - destruct HD as (H1 & H3).
+    pose proof (locally_pos _ _ (evalR_continuous sh e rho v H1) ltac:(cbv beta; rewrite HsF; exact H3)) as L3.
+    generalize (filter_and _ _ (IHe H1) L3). apply filter_imp. tauto.
+  - destruct HD as (H1 & H3).
+    pose proof (locally_range _ _ (evalR_continuous sh e rho v H1) ltac:(cbv beta; rewrite HsF; exact H3)) as L3.
+    generalize (filter_and _ _ (IHe H1) L3). apply filter_imp. tauto.
+  - destruct HD as (H1 & H3).
+    pose proof (locally_neq0 _ _ (evalR_continuous sh e rho v H1) ltac:(cbv beta; rewrite HsF; exact H3)) as L3.
+    generalize (filter_and _ _ (IHe H1) L3). apply filter_imp. tauto.
+Qed.
+
+(* the Hessian read back IS the matrix of second partial derivatives (Coquelicot's total Derive) *)
+Theorem hessian_exact (sh : bool) (e : exprR) (rho : envR) u v : Dom e rho ->
+  is_derive (fun y => Derive (fun x => evalR e (upd (upd rho v y) u x)) (upd rho v y u)) (rho v)
+            (2 * coef2 (evalDual2 sh e rho) u v).
+Proof.
+  intros D.
+  apply dR_ext_loc with (f := fun y => coef (evalDual sh e (upd rho v y)) u).
+  - generalize (Dom_locally sh e rho v D). apply filter_imp. intros y Dy.
+    destruct (ad1_exact sh e (upd rho v y) Dy) as (_ & _ & Dv).
+    symmetry. apply is_derive_unique. apply Dv.
+  - apply hessian_pointwise. exact D.
+Qed.
